@@ -1,6 +1,7 @@
 import CgtModel.Report
 import CgtModel.Props.C02
 import CgtModel.Props.C04
+import CgtModel.Props.C01
 /-! # C09 — securities are independent; tickers are case-insensitive
 
 Full statement: transactions in one security never change the disposals, legs, costs or holding of
@@ -16,16 +17,20 @@ Proved for the model:
   preprocessed ledger;
 * `C09_totals_add` — a year's total gain and loss over a combined disposal list are the sums over the
   parts (so per-security totals add up), in any order of combination.
-Not proved: that deleting other securities' lines *before* preprocessing gives the same day list —
-false on the code as it is when a (date, security) has two or more SELL lines (known finding D17:
-adjacent SELL lines are merged, and a line of another security between them prevents that); the check
-compares report(all) with the combination of per-security reports on the real code, leg by leg
-outside that class and per (rule, acquisition date) inside it.
+* `C09_ledger_alone` — **for the matcher model, from the raw ledger** (through `C01_ledger_raw`): the whole
+  ledger against one security's own lines, both validator-clean with valid dates and accepted: a
+  security without capital events whose SELL lines fall on different days has the same legs (rule,
+  quantity, allowable cost, acquisition date, in order) and the same closing pool either way.
+Not proved: the same for securities with capital events or several SELL lines on a day — for the latter
+it is false on the code as it is (known finding D17: adjacent SELL lines are merged, and a line of
+another security between them prevents that); the check compares report(all) with the combination of
+per-security reports on the real code, leg by leg outside that class and per (rule, acquisition date)
+inside it.
 Ticker case (DSL parser, JSON deserialiser) is exercised by the check on the real parser and serde
 paths; the parser model's upper-casing theorem is under C13/C14.
 -/
 namespace Cgt.C09
-open Cgt
+open Cgt Spec
 
 theorem C09_result_depends_only_on_own_days (w : Int) (l l' : List Tx) (rs rs' : List TickerResult)
     (h : run w l = .ok rs) (h' : run w l' = .ok rs') (r : TickerResult) (r' : TickerResult)
@@ -144,5 +149,53 @@ theorem C09_totals_add (a b : List Disposal) :
   rw [hab.1, hab.2, ha.1, ha.2, hb.1, hb.2]
   simp only [List.map_append, rsum_append]
   exact ⟨trivial, trivial⟩
+
+/-! ### the matcher model, from the raw ledger -/
+
+/-- the lines of one security -/
+def alone (t : String) (l : List Tx) : List Tx := l.filter (fun x => x.ticker = t)
+
+theorem table_alone (t : String) (l : List Tx) : table t (alone t l) = table t l := by
+  unfold table alone
+  rw [List.filter_filter]
+  congr 1
+  apply List.filter_congr
+  intro x _
+  simp
+
+theorem sellOrds_alone (t : String) (l : List Tx) : sellOrds t (alone t l) = sellOrds t l := by
+  unfold alone
+  induction l with
+  | nil => rfl
+  | cons x xs ih =>
+    simp only [List.filter_cons]
+    by_cases h : x.ticker = t
+    · simp only [h, decide_true, if_true, sellOrds_cons, ih]
+    · simp only [h, decide_false, Bool.false_eq_true, if_false, sellOrds_cons, ih]
+      simp [so, h]
+
+/-- **C09 for the matcher model, from the raw ledger**: the ledger against one security's lines alone,
+    both validator-clean with valid dates and accepted: a security without capital events whose SELL
+    lines fall on different days has the same legs (rule, quantity, allowable cost, acquisition date, in
+    order) and the same closing pool whether or not the other securities' lines are present. -/
+theorem C09_ledger_alone (l : List Tx) (hw : WellFormed l) (hd : Spec.DatesOk l) (t : String)
+    (hne : noEventLines t l) (hone : oneSellPerDay t l)
+    (rs rs' : List TickerResult) (h : run bnbWindowDays l = .ok rs) (h' : run bnbWindowDays (alone t l) = .ok rs') :
+    ∀ r ∈ rs, ∀ r' ∈ rs', r.ticker = t → r'.ticker = t →
+      r'.legs.map legView = r.legs.map legView ∧ poolQ' r'.pool = poolQ' r.pool ∧ poolC' r'.pool = poolC' r.pool := by
+  intro r hr r' hr' ht ht'
+  have hsub : ∀ x ∈ alone t l, x ∈ l := fun x hx => (List.mem_filter.mp hx).1
+  have hw' : WellFormed (alone t l) := fun x hx => hw x (hsub x hx)
+  have hd' : Spec.DatesOk (alone t l) := fun x hx => hd x (hsub x hx)
+  have hne' : noEventLines t (alone t l) := fun x hx => hne x (hsub x hx)
+  have hone' : oneSellPerDay t (alone t l) := by unfold oneSellPerDay; rw [sellOrds_alone]; exact hone
+  have c := C01.C01_ledger_raw l hw hd rs h r hr (ht ▸ hne) (ht ▸ hone)
+  have c' := C01.C01_ledger_raw (alone t l) hw' hd' rs' h' r' hr' (ht' ▸ hne') (ht' ▸ hone')
+  simp only at c c'
+  have hid : Spec.identify bnbWindowDays t (alone t l) = Spec.identify bnbWindowDays t l := by
+    unfold Spec.identify; rw [table_alone]
+  rw [ht] at c; rw [ht', hid] at c'
+  exact ⟨by rw [c'.2.2, c.2.2], by rw [← c'.1, ← c.1], by rw [← c'.2.1, ← c.2.1]⟩
+
 
 end Cgt.C09
